@@ -540,7 +540,12 @@ func (g *c11Gen) step() bool {
 		}
 	case op < 88: // copy
 		d := Pick(r, g.names)
-		g.w("copy(%s, %s)\n", d, u)
+		if r.Bool() { // the count of copied elements is a value
+			g.w("println(\"copied\", copy(%s, %s))\n", d, u)
+			g.feat["copy-count"] = true
+		} else {
+			g.w("copy(%s, %s)\n", d, u)
+		}
 		g.feat["copy"] = true
 		if g.views[d].arr == uv.arr && uv.arr >= 0 {
 			g.feat["copy-overlap"] = true
@@ -651,7 +656,7 @@ func (c *Ctx) c11Scripts() error {
 }
 
 func runC11(c *Ctx) error {
-	c.Rep.Rule = "slice: histories over a pool of six slice variables (int and byte elements) of literal / make / nil / sub-slice (host, VM, omitted upper bound, beyond len up to cap, out of range) / element write and read (in and out of range) / append (host, VM, spread of a possibly overlapping slice, 0..35 elements, onto nil) / copy (also overlapping), contents of all variables compared after every step, len and cap after every append; go-toolchain: programs over 2..4 slice variables of int, byte, float64 or string elements with helper functions, restricted to operations whose outcome does not depend on the growth policy (capacity lower bounds tracked by the generator), optionally ending in an out-of-range error; distinct = distinct history/program; non-trivial = history longer than 20 ops / program with more than 5 features"
+	c.Rep.Rule = "slice: histories over a pool of six slice variables (int and byte elements) of literal / make / nil / sub-slice (host, VM, omitted upper bound, beyond len up to cap, out of range) / element write and read (in and out of range) / append (host, VM, spread of a possibly overlapping slice, 0..35 elements, onto nil) / copy (also overlapping, as statement and as a value), contents of all variables compared after every step, len and cap after every append; go-toolchain: programs over 2..4 slice variables of int, byte, float64 or string elements with helper functions, restricted to operations whose outcome does not depend on the growth policy (capacity lower bounds tracked by the generator), optionally ending in an out-of-range error; distinct = distinct history/program; non-trivial = history longer than 20 ops / program with more than 5 features"
 	n, maxOps := 300, 60
 	if c.Thorough() {
 		n, maxOps = 20000, 150
